@@ -2022,11 +2022,18 @@ class BaseInterpreter(Generic[TContext, TEvent]):
                 child.type == "history" for child in state.states.values()
             ):
                 continue
-            remembered = [
-                node
-                for node in self._active_state_nodes
-                if node is not state and self._is_descendant(node, state)
-            ]
+            # 🔀 Sorted by id: the active configuration is a set, and the
+            #    remembered order is the order in which deep history later
+            #    re-enters the leaves — it must not depend on set iteration.
+            #    It is also the order a snapshot restores the list in.
+            remembered = sorted(
+                (
+                    node
+                    for node in self._active_state_nodes
+                    if node is not state and self._is_descendant(node, state)
+                ),
+                key=lambda node: node.id,
+            )
             if remembered:
                 self._history[state.id] = remembered
                 logger.debug(
